@@ -2,8 +2,12 @@
    Proved (control-flow core model): the refusals (paused workflow, succeeded workflow,
    succeeded task), that rerun/skip are the only events leaving ERROR/CANCELLED and put the
    workflow back to RUNNING along a table edge, the routes taken by a skipped task.
-   NOT proved: "the run then finishes as if the task had produced its new result the first time"
-   (needs the denotational semantics; decided by trace correspondence + oracle), the
+   "The run then finishes" is PROVED for join-free programs (C12_rerun_run_finishes_joinfree: with
+   reruns of failed tasks and skips at any point of any schedule - issued while the command backlog is
+   empty - together with deliveries, duplicates, pause / resume / stop, a run with nothing pending has
+   only final task executions and a completed or PAUSED workflow; Proofs/EngineLive.v).
+   NOT proved: "... as if the task had produced its new result the first time" (equality of the results;
+   decided by trace correspondence + the reference-run oracle of harness/engine_rerun.py), the
    with-items part (reset on/off: property C07), enclosing workflows / parent tasks (no
    sub-workflows in the core model).
    Second part (Model/Rerun.v, Proofs/RerunProofs.v): the propagation of a rerun / skip over the
@@ -14,7 +18,8 @@
    guards, with-items reset on / off, repeated requests. *)
 From Coq Require Import List Bool.
 Require Import Mistral.Gen.States Mistral.Model.Engine.
-Require Import Mistral.Proofs.StatesProofs Mistral.Proofs.EngineWf Mistral.Proofs.EngineSafety Mistral.Proofs.EngineMore.
+Require Import Mistral.Proofs.StatesProofs Mistral.Proofs.EngineWf Mistral.Proofs.EngineSafety Mistral.Proofs.EngineMore
+               Mistral.Proofs.EngineLive.
 Require Mistral.Model.Rerun Mistral.Proofs.RerunProofs.
 Import ListNotations.
 
@@ -61,6 +66,25 @@ Theorem C12_skipped_task_routes : forall sp r,
   end.
 Proof. exact skipped_task_routes. Qed.
 Print Assumptions C12_skipped_task_routes.
+
+(* a rerun (or skipped) run goes on to completion: no lost wake-up with reruns and skips *)
+Theorem C12_rerun_run_finishes_joinfree : forall sp, nojoin sp -> forall u evs,
+  ok_run sp (init_with u) evs = true ->
+  let s := run sp u evs in
+  wf_created s = true -> pend s = [] ->
+  (forall tid r, nth_error (tasks s) tid = Some r -> is_completed (t_state r) = true) /\
+  (is_completed (wf_state s) = true \/ wf_state s = PAUSED).
+Proof. exact no_stuck_joinfree_ops. Qed.
+Print Assumptions C12_rerun_run_finishes_joinfree.
+
+Example C12_rerun_run_finishes_nonvacuous :
+  let evs1 := EStart :: drain_evs rerun_sp (fst (step rerun_sp init EStart)) 50 in
+  let s1 := run rerun_sp [] evs1 in
+  let evs2 := ERerun 0 true :: drain_evs rerun_sp (fst (step rerun_sp s1 (ERerun 0 true))) 50 in
+  let s2 := run rerun_sp [] (evs1 ++ evs2) in
+  wf_state s1 = ERROR /\ pend s1 = [] /\ ok_run rerun_sp init (evs1 ++ evs2) = true /\
+  pend s2 = [] /\ wf_state s2 = SUCCESS /\ length (tasks s2) = 2.
+Proof. exact no_stuck_after_rerun. Qed.
 
 Definition C12_rerun_equiv_statement : Prop :=
   forall sp u evs, (* a history with a failed task rerun ends like the history in which the task had
